@@ -1034,6 +1034,17 @@ func exec(op string) string {
 		}
 	case "spec", "specr", "specc":
 		return "accept"
+	case "rt":
+		if len(w) == 3 {
+			return runRT(w)
+		}
+	case "att":
+		if len(w) == 4 {
+			return runAtt(w)
+		}
+	case "kf-down-unlogged":
+		// UNLOGGED_BATCH write timeout that no replica acknowledged: what does the policy answer, what does its doc say
+		return "code=" + rtName((&gocql.DowngradingConsistencyRetryPolicy{}).GetRetryType(errOf("wt:UNLOGGED_BATCH:0:1"))) + " documented=rethrow"
 	case "kf-batch-loser":
 		return kfBatchLoser()
 	case "kf-d10":
@@ -1451,6 +1462,7 @@ func main() {
 		}
 		out.Case(d.op(), results[i], cls, len(d.hosts) > 0)
 	}
+	policyOps(r, out)
 	kinds := []string{"q", "bl", "bu", "bc"}
 	type specScn struct {
 		kind, idem string
